@@ -94,7 +94,7 @@ func stripIdx(s string) string {
 	return sb.String()
 }
 
-var patterns = []string{"zero", "ff", "05", "3f", "01", "random", "next"}
+var patterns = []string{"redecode", "zero", "ff", "05", "3f", "01", "random", "next"}
 
 func fill(b []byte, pat string, rng *rand.Rand, next []byte) {
 	switch pat {
@@ -200,7 +200,13 @@ func judge(r *mon.Rec, fam string, wire, next []byte, rng *rand.Rand, onlyPatter
 		if onlyPattern != "" && pat != onlyPattern {
 			continue
 		}
-		fill(src, pat, rng, next)
+		if pat == "redecode" {
+			// the mildest re-use of the buffer: it is decoded once more (a caller that peeks, a retry); the first message
+			// stays what it was
+			decode(fam, src)
+		} else {
+			fill(src, pat, rng, next)
+		}
 		s1 := snapshot(v, helpersOf(v))
 		if path, msg := diffSnap(s0, s1); path != "" {
 			rp.Pattern = pat
@@ -367,6 +373,24 @@ func TestCheck(t *testing.T) {
 			judge(r, "v4", b, prev4, r.Rand("corpus4", i), "")
 			prev4 = b
 		}
+	}
+	// typed option codes without a generator (a type added to the library after the harness was written): arbitrary
+	// payloads of every small length, the accepted ones are judged
+	k0 := 0
+	for _, c := range v6util.SortedCodes(typed) {
+		if gen6.HasGenerator(c) {
+			continue
+		}
+		for j := 0; j < r.Pick(600, 6000); j++ {
+			if r.Mine(k0) {
+				rng := r.Rand(fmt.Sprintf("untyped%d", c), j)
+				w := gen6.Untyped(rng, c)
+				judge(r, "v6", w, prev6, rng, "")
+				prev6 = w
+			}
+			k0++
+		}
+		r.Count(fmt.Sprintf("typed_without_generator.code%d", c), 1)
 	}
 	n := r.Pick(6000, 200000)
 	for i := 0; i < n; i++ {
